@@ -183,3 +183,40 @@ Example c02_inlining_instance : forall base sid,
   exists d', inline_dnf wtags demorgan 1 [[CTag 0 tag_plain]] = Some d' /\
              eval_dnf wtags (pe base) sid d' = base 7.
 Proof. exact inlining_instance. Qed.
+
+(* ---------------------------------------------------------------- sub-queries *)
+(* A sub-query is searched first, unsorted, without limit and id restriction ([sub_search]): its result list
+   holds exactly the visible streams its parts accept, each stream id once.  (The positions in this list are
+   what the main query's searchContext refers to.) *)
+Theorem c02_subquery_results_exact : forall fs sat,
+  Forall (file_ok sat) fs ->
+  Permutation (spec_matching (map fst fs) (fun _ => true) sat) (sub_search v_fixed fs) /\
+  (Forall (fun f => NoDup (map s_id (f_streams f))) (map fst fs) -> NoDup (map e_id (sub_search v_fixed fs))).
+Proof. exact sub_search_exact. Qed.
+
+(* subQuerySelection.remove: a combination of sub-query result positions is allowed afterwards iff it was
+   allowed before and is not forbidden in every listed component *)
+Theorem c02_subquery_selection_remove : forall dom c sqs forbidden sel,
+  (forall sq, In sq sqs -> In sq dom) -> length sqs = length forbidden ->
+  (sel_allows dom c (sel_remove sqs forbidden sel) <->
+   sel_allows dom c sel /\ ~ forbidden_by c sqs forbidden).
+Proof. exact sel_remove_spec. Qed.
+
+(* The filters of one conjunct on one stream share one searchContext; every relation to sub-queries removes
+   its forbidden combinations; the conjunct matches iff something is left.  Proved: this is exactly
+   "some allowed combination of sub-query results is forbidden by none of the relations", i.e. the
+   existential meaning of sub-queries.
+   PARTIAL: how each condition type (number, time, host, flag) computes its forbidden sets from the previous
+   results is not modelled; with these filters as the given [qp_filter] all theorems about the main search
+   above apply unchanged, and the correspondence check compares them on every generated case with the
+   oracle's meaning "streams for the sub-queries exist such that the formula holds". *)
+Theorem c02_subquery_relation_filters_partial : forall dom ops sel,
+  sel_wf dom sel -> Forall (op_ok dom) ops ->
+  (rel_filters ops sel = true <->
+   exists c, sel_allows dom c sel /\ Forall (fun op => ~ forbidden_by c (fst op) (snd op)) ops).
+Proof. exact rel_filters_exact. Qed.
+
+Example c02_subquery_selection_non_vacuous :
+  sel_wf [0; 1] ws_sel /\ Forall (op_ok [0; 1]) ws_ops /\
+  rel_filters ws_ops ws_sel = true /\ rel_filters (ws_ops ++ [([1], [[1]])]) ws_sel = false.
+Proof. split; [exact ws_wf|split; [exact ws_ops_ok|exact ws_filters]]. Qed.
